@@ -314,15 +314,17 @@ Definition media_rv (p : MediaPlaylist) : N :=
          maxl (map segment_rv (mp_segs p)) ].
 
 (* ---------- Display ---------- *)
+(* Display is modelled as the list of lines written (each followed by LF) *)
 Definition nl (s : str) : str := s ++ [10].
-Definition print_segment (s : Segment) : str :=
-  match sg_map s with Some m => nl (print_xmap m) | None => [] end
-  ++ match sg_range s with Some r => nl (print_xbyterange r) | None => [] end
-  ++ match sg_daterange s with Some d => nl (print_daterange d) | None => [] end
-  ++ (if sg_disc s then nl pfx_ExtXDiscontinuity else [])
-  ++ match sg_pdt s with Some p => nl (print_pdt p) | None => [] end
-  ++ nl (print_extinf (sg_inf s))
-  ++ nl (sg_uri s).
+Definition olist {A} (o : option A) (f : A -> str) : list str := match o with Some x => [f x] | None => [] end.
+Definition segment_lines (s : Segment) : list str :=
+  olist (sg_map s) print_xmap
+  ++ olist (sg_range s) print_xbyterange
+  ++ olist (sg_daterange s) print_daterange
+  ++ (if sg_disc s then [pfx_ExtXDiscontinuity] else [])
+  ++ olist (sg_pdt s) print_pdt
+  ++ [print_extinf (sg_inf s); sg_uri s].
+Definition print_segment (s : Segment) : str := flat_map nl (segment_lines s).
 
 (* the writer's `available_keys` set, as a duplicate-free list *)
 Definition set_mem (k : xkey) (l : list xkey) : bool := existsb (xkey_eqb k) l.
@@ -334,8 +336,8 @@ Definition strip_derived (d : Key) : Key :=
                      k_format := k_format d; k_versions := k_versions d |}
   | _ => d
   end.
-(* one key of one segment: returns the new set and the text written *)
-Definition write_key (avail : list xkey) (k : xkey) : list xkey * str :=
+(* one key of one segment: returns the new set and the lines written *)
+Definition write_key (avail : list xkey) (k : xkey) : list xkey * list str :=
   match k with
   | Some d =>
       let avail := set_remove None avail in
@@ -348,10 +350,10 @@ Definition write_key (avail : list xkey) (k : xkey) : list xkey * str :=
                                         | Some o => same_fmt o d' && negb (xkey_eqb y key)
                                         | None => false end) avail in
         let avail := match old with Some o => set_remove o avail | None => avail end in
-        (avail, nl (print_xkey key))
-  | None => ([None], nl (print_xkey None))
+        (avail, [print_xkey key])
+  | None => ([None], [print_xkey None])
   end.
-Fixpoint write_keys (avail : list xkey) (ks : list xkey) : list xkey * str :=
+Fixpoint write_keys (avail : list xkey) (ks : list xkey) : list xkey * list str :=
   match ks with
   | [] => (avail, [])
   | k :: r => let '(a1, t1) := write_key avail k in
@@ -365,26 +367,29 @@ Definition stale_keys (avail : list xkey) (keys : list xkey) : bool :=
                          | Some o => negb (existsb (fun k => match k with Some kk => same_fmt kk o | None => false end) keys)
                          | None => false
                          end) avail.
-Fixpoint write_segments (avail : list xkey) (segs : list Segment) : str :=
+Fixpoint segments_lines (avail : list xkey) (segs : list Segment) : list str :=
   match segs with
   | [] => []
   | s :: r =>
       let stale := stale_keys avail (sg_keys s) in
       let avail0 := if stale then [] else avail in
       let '(a, t) := write_keys avail0 (sg_keys s) in
-      (if stale then nl (print_xkey None) else []) ++ t ++ print_segment s ++ write_segments a r
+      (if stale then [print_xkey None] else []) ++ t ++ segment_lines s ++ segments_lines a r
   end.
 
-Definition print_media (p : MediaPlaylist) : str :=
-  nl pfx_ExtM3u
-  ++ (if media_rv p =? 1 then [] else nl (pfx_ExtXVersion ++ print_protocol_version (media_rv p)))
-  ++ nl (pfx_ExtXTargetDuration ++ print_uint (mp_target p / 1000000000))
-  ++ (if mp_mseq p =? 0 then [] else nl (pfx_ExtXMediaSequence ++ print_uint (mp_mseq p)))
-  ++ (if mp_dseq p =? 0 then [] else nl (pfx_ExtXDiscontinuitySequence ++ print_uint (mp_dseq p)))
-  ++ match mp_ptype p with Some t => nl (print_playlist_type t) | None => [] end
-  ++ (if mp_iframes p then nl pfx_ExtXIFramesOnly else [])
-  ++ (if mp_indep p then nl pfx_ExtXIndependentSegments else [])
-  ++ match mp_start p with Some s => nl (print_start s) | None => [] end
-  ++ write_segments [] (mp_segs p)
-  ++ flat_map nl (mp_unknown p)
-  ++ (if mp_endlist p then nl pfx_ExtXEndList else []).
+Definition version_line (rv : N) : list str :=
+  if rv =? 1 then [] else [pfx_ExtXVersion ++ print_protocol_version rv].
+Definition media_header_lines (p : MediaPlaylist) : list str :=
+  [pfx_ExtXTargetDuration ++ print_uint (mp_target p / 1000000000)]
+  ++ (if mp_mseq p =? 0 then [] else [pfx_ExtXMediaSequence ++ print_uint (mp_mseq p)])
+  ++ (if mp_dseq p =? 0 then [] else [pfx_ExtXDiscontinuitySequence ++ print_uint (mp_dseq p)])
+  ++ olist (mp_ptype p) print_playlist_type
+  ++ (if mp_iframes p then [pfx_ExtXIFramesOnly] else [])
+  ++ (if mp_indep p then [pfx_ExtXIndependentSegments] else [])
+  ++ olist (mp_start p) print_start.
+Definition media_body_lines (p : MediaPlaylist) : list str :=
+  media_header_lines p ++ segments_lines [] (mp_segs p) ++ mp_unknown p
+  ++ (if mp_endlist p then [pfx_ExtXEndList] else []).
+Definition media_lines (p : MediaPlaylist) : list str :=
+  [pfx_ExtM3u] ++ version_line (media_rv p) ++ media_body_lines p.
+Definition print_media (p : MediaPlaylist) : str := flat_map nl (media_lines p).
